@@ -347,14 +347,19 @@ def c07(pid, tier, replay):
 
     def prepare(scratch, plan, vh):
         dest = scratch.path("shapes.json")
-        out, rc, gen, dist = _tlc(scratch, "Totality", "Totality_shapes.cfg", env={"VH_EXPORT": dest}, workers=1, timeout=900)
+        enums = scratch.path("enums.json")
+        from common import run as _run
+        _run([vh, "gen-schema", "--out", scratch.path("Schema-unused.tla"), "--enums", enums])
+        out, rc, gen, dist = _tlc(scratch, "Totality", "Totality_shapes.cfg", env={"VH_EXPORT": dest, "VH_ENUMS": enums}, workers=1, timeout=900)
         if rc != 0 or "No error has been found" not in out:
             raise _Infra("TLC could not enumerate the shape lattice:\n" + out[-2000:])
-        n = len(_json.load(open(dest))["all"])
+        exported = _json.load(open(dest))
+        n = len(exported["all"])
+        nsweep = len(exported.get("sweeps", []))
         plan["jobs"] = [{"cmd": ["ser-run", "--shapes", dest, "--sample", str(sample), "--seed", str(seed()), "--shard", str(i),
                                  "--shards", str(nshards)], "label": "shard%d" % i} for i in range(nshards)]
         plan["extra_coverage"] = {"shape_lattice_size": n, "shapes_executed": n if sample == 0 else min(sample, n),
-                                  "formats": 8, "exhaustive": sample == 0}
+                                  "formats": 8, "exhaustive": sample == 0, "enum_sweep_documents": nsweep}
 
     plan = {
         "module": "TraceSer", "cfg": "TraceSer.cfg", "own": r"^ser\..*$", "jobs": [], "prepare": prepare,
@@ -364,7 +369,9 @@ def c07(pid, tier, replay):
                 "document types x nil elements: 90 720 shapes) and exports it; the harness builds a real Document per shape and "
                 "writes it with all eight registered serializers (SPDX 2.3, CycloneDX 1.0-1.5, SPDX 3 beta) in child processes "
                 "with a write-ahead journal, each document at two different history positions (block order, then reversed); "
-                "quick runs a seeded sample of the lattice, thorough all of it; distinct = (shape, format)",
+                "quick runs a seeded sample of the lattice, thorough all of it; plus the enum sweep (every declared number of "
+                "every enum of the schema, -1 and one above the largest, each in an otherwise serializable document), always in "
+                "full; distinct = (shape, format)",
         "assumptions": ["outputs are compared after masking created/timestamp members and sorting every JSON array (done by the "
                         "harness; the specification decides equality)",
                         "shapes with nil elements are reachable only by programmatic construction; they are included"],
